@@ -10,7 +10,7 @@ from sim.seams import Env
 PROPERTY = "C25"
 LEVEL = "exploration"
 SCENARIOS = {"init": 2, "scan": 1, "mixed": 2}
-TIERS = {"quick": {"runs": 8000, "chunk": 25}, "thorough": {"runs": 200000, "chunk": 100}}
+TIERS = {"quick": {"runs": 8000, "chunk": 25}, "thorough": {"runs": 50000000, "wall_s": 600, "chunk": 100, "recheck": 16}}
 RULE = ("one run = a simulated bus of 2-12 terminals, some with pre-assigned station "
         "addresses inside/outside a narrowed terminal_addr_range, the master's random "
         "address choices biased towards already used and pre-assigned values; "
